@@ -14,7 +14,7 @@ RULE = ('consistency: every line up to the bound over the 16-symbol alphabet "a*
         'bracket or quote}; markup and stylesheet type; domain D1 must be exact, domain D2 is built to contain one of the two recorded heuristic patterns. '
         'Non-trivial = extract returned a result / A has an operator or bracket; distinct by (line, position, options)')
 ASSUMPTIONS = ['tag names of the left context in D1 consist of letters, digits, `:` and `-` (names with `.` or `_` are the third recorded heuristic, D2/F3)',
-               'D1 = lines in which no ">" operator of A (outside [] and {}) is preceded by a blank-, quote-free run containing "=", and no quoted attribute value contains a bracket character',
+               'D1 = lines in which no ">" operator of A (outside [] and {}) is preceded by a blank-, quote-free run containing "=", and no quoted attribute value contains a bracket character other than round brackets that pair up inside the value',
                'A uses ASCII names, balanced brackets inside [...], balanced (possibly nested) braces inside {...}; stylesheet A has no commas, blanks, quotes or ${...} (function arguments cannot be extracted by design)',
                'an empty abbreviation (line of operators only) is a consistent result',
                'prefixes used in round trips do not occur inside A, and no prefix is used when the left context contains brackets or braces (the statement promises the exact round trip without a prefix only)']
@@ -169,7 +169,8 @@ def rand_elem(rng, d2_pattern=None):
         elif k < 0.4:
             s += '#i' + rng.choice(['', '1', '$'])
         elif k < 0.6:
-            s += '[%s="%s"]' % (rng.choice(['t', 'data-a']), rng.choice(['x y', '', 'a>b', "it's", '$#', 'a=b', '<b>', 'a+b', 'x.y']))
+            s += '[%s="%s"]' % (rng.choice(['t', 'data-a']), rng.choice(['x y', '', 'a>b', "it's", '$#', 'a=b', '<b>', 'a+b', 'x.y', "alert('hi')", 'color:rgb(0, 0, 0)', 'save(item, $event)',
+                                                                                  'Name (optional)', 'f(g(1, 2), 3) !', 'go(); stop()', 'x (\u00e9)']))
         elif k < 0.7:
             s += '[%s]' % rng.choice(['a b', 'k', 'a.', '!b', 'x y z'])
         elif k < 0.85:
@@ -225,7 +226,16 @@ def d1_ok(line, a_start, a_end):
                 return False
     A = line[a_start:a_end]
     for m in re.finditer(r'"([^"]*)"|\'([^\']*)\'', A):
-        if re.search(r'[\[\](){}]', m.group(0)[1:-1]):
+        v = m.group(0)[1:-1]
+        if re.search(r'[\[\]{}]', v):
+            return False
+        # round brackets that pair up inside the value (a call, a remark in parentheses) are ordinary content
+        depth = 0
+        for ch in v:
+            depth += (ch == '(') - (ch == ')')
+            if depth < 0:
+                return False
+        if depth:
             return False
     return True
 
